@@ -71,6 +71,41 @@ pub mod shim {
     pub open spec fn set_bytes(s: Seq<u8>, o: int, b: Seq<u8>) -> Seq<u8> {
         Seq::new(s.len(), |i: int| if o <= i < o + b.len() { b[i - o] } else { s[i] })
     }
+    /// big-endian value of the first k bytes of the field at offset a (accumulation of dissector.rs read_u32)
+    pub open spec fn be_part(s: Seq<u8>, a: int, k: int) -> int
+        decreases k
+    {
+        if k <= 0 { 0 } else { be_part(s, a, k - 1) * 256 + s[a + k - 1] as int }
+    }
+    /*PROVED_IN:u_pnet*/ pub proof fn lemma_be_part_push(s: Seq<u8>, b: u8, a: int, k: int)
+        requires 0 <= a, a + k <= s.len()
+        ensures be_part(s.push(b), a, k) == be_part(s, a, k)
+        decreases k
+    {
+        if k > 0 { lemma_be_part_push(s, b, a, k - 1); }
+    }
+    /*PROVED_IN:u_pnet*/ pub proof fn lemma_be_part_4(s: Seq<u8>, a: int)
+        requires 0 <= a, a + 4 <= s.len()
+        ensures be_part(s, a, 4) == be32(s, a) as int
+    {
+        reveal_with_fuel(be_part, 5);
+    }
+
+    /*PROVED_IN:u_pnet*/ pub proof fn lemma_be32_digits(b0: u8, b1: u8, b2: u8, b3: u8, v: u32)
+        requires v as int == b0 as int * 16777216 + b1 as int * 65536 + b2 as int * 256 + b3 as int
+        ensures (v / 16777216) as u8 == b0, ((v / 65536) % 256) as u8 == b1, ((v / 256) % 256) as u8 == b2, (v % 256) as u8 == b3
+    {
+        let c0 = b0 as u32; let c1 = b1 as u32; let c2 = b2 as u32; let c3 = b3 as u32;
+        assert(v == c0 << 24 | c1 << 16 | c2 << 8 | c3) by(bit_vector)
+            requires c0 < 256, c1 < 256, c2 < 256, c3 < 256, v == add(mul(c0, 16777216), add(mul(c1, 65536), add(mul(c2, 256), c3)));
+        assert(v / 16777216 == c0 && (v / 65536) % 256 == c1 && (v / 256) % 256 == c2 && v % 256 == c3) by(bit_vector)
+            requires c0 < 256, c1 < 256, c2 < 256, c3 < 256, v == c0 << 24 | c1 << 16 | c2 << 8 | c3;
+    }
+    /*PROVED_IN:u_pnet*/ pub proof fn lemma_be16_digits(b0: u8, b1: u8, v: u16)
+        requires v as int == b0 as int * 256 + b1 as int
+        ensures (v / 256) as u8 == b0, (v % 256) as u8 == b1
+    {
+    }
     /*PROVED_IN:u_pnet*/ pub proof fn lemma_u32_split(v: u32)
         ensures (v as int / 16777216) * 16777216 + ((v as int / 65536) % 256) * 65536 + ((v as int / 256) % 256) * 256 + v as int % 256 == v,
                 v as int / 16777216 < 256
